@@ -43,8 +43,13 @@ pub fn start_empty<const D: usize>(g: usize) -> World<D> {
 }
 
 pub fn start_built<const D: usize>(pts: &[Vec<f64>], g: usize, rng: &mut Rng) -> Option<World<D>> {
+    start_built_with::<D>(pts, g, &Opts { order: 3, dedup: 0, simplex: 0, retry: 0 }, rng)
+}
+
+/// batch construction with explicit options
+pub fn start_built_with<const D: usize>(pts: &[Vec<f64>], g: usize, opts: &Opts, rng: &mut Rng) -> Option<World<D>> {
     let vs = tri::make_vertices::<D>(pts, rng);
-    match tri::build_fast::<D>(&vs, g, &Opts { order: 3, dedup: 0, simplex: 0, retry: 0 }) {
+    match tri::build_fast::<D>(&vs, g, opts) {
         Ok(Ok(dt)) => {
             let mut w = World { dt, ids: Ids::default(), offered: vec![], removed: vec![], next_data: 100 + vs.len() as i32, g, check_on: false, repair_on: true, had_removal: false, had_flip: false, stale_cells: vec![] };
             for v in &vs {
